@@ -200,6 +200,14 @@ func runC16(cfg *config) *Report {
 				m[r.Intn(len(m))] ^= byte(1 + r.Intn(255))
 				inputs = append(inputs, input{m, e, "one byte corrupted", false})
 			}
+			if !e.LP {
+				// the same file with CR LF line ends (the carriage return is dropped by the line splitter)
+				crlf := bytes.ReplaceAll(out, []byte("\n"), []byte("\r\n"))
+				inputs = append(inputs, input{crlf, e, "whole file, CR LF line ends", false})
+				for k := 0; k < len(crlf); k += 5 {
+					inputs = append(inputs, input{crlf[:k], e, fmt.Sprintf("CR LF file cut at byte %d", k), false})
+				}
+			}
 		}
 	}
 	bufSizes := []int{maxRec + 8, maxRec + 9, 2*maxRec + 1, 1 << 16, 1 << 20}
